@@ -163,6 +163,41 @@ func runC09(c *core.Ctx) {
 		lab.ResetEvents()
 	}
 
+	// a port shared by several services: the server reads the first bytes itself (peek) before any
+	// service runs; a silent or departing client must be let go there too
+	for li, list := range []string{`"http", "echo"`, `"dA", "p1"`, `"dA", "dB"`, `"p1", "dA"`, `"cwmp", "http", "echo"`} {
+		li, list := li, list
+		c.Case(fmt.Sprintf("shared-port/%d", li), func() {
+			toml := c08Services + "[service.http]\ntype=\"http\"\n\n[service.echo]\ntype=\"echo\"\n\n[service.cwmp]\ntype=\"cwmp\"\n\n" +
+				fmt.Sprintf("[[port]]\nport=\"tcp/8099\"\nservices=[%s]\n\n", list) +
+				"[channel.cap]\ntype=\"verif-capture\"\nid=\"cap\"\n\n[[filter]]\nchannel=[\"cap\"]\n"
+			lab.ResetEvents()
+			lab.ResetStubs()
+			s, err := lab.Start(toml)
+			if err != nil {
+				panic(err)
+			}
+			lab.Quiesce()
+			if err := s.Attach(); err != nil {
+				panic(err)
+			}
+			defer s.Stop()
+			base := honeytrapGoroutines()
+			fd0 := fdCount()
+			name := "shared-port"
+			for _, end := range []c09End{endClose, endSilence} {
+				tcpScenario(s, name, "services ["+list+"]: no byte sent", nil, end, base, fd0)
+				for _, r := range [][]byte{{'G'}, {'A'}, {'B'}, []byte("GET / HTTP/1.1\r\n"), []byte("GET / HTTP/1.1\r\nHost: x\r\n\r\n"), {0}} {
+					tcpScenario(s, name, fmt.Sprintf("services [%s]: %q", list, r), [][]byte{r}, end, base, fd0)
+				}
+			}
+			if fd1 := fdCount(); fd1 > fd0 {
+				c.Violationf("C09:shared-port:fd-leak", "services [%s]: %d descriptors before, %d after all scenarios", list, fd0, fd1)
+			}
+			c.Outcome("shared-port", list)
+		})
+	}
+
 	for _, svc := range tcpNames {
 		svc := svc
 		seeds := tcp[svc]
